@@ -64,14 +64,18 @@ class FakeRequest:
         self.finished += 1
 
 
-def parse_dot(path):
-    """independent reading of pl/state.dot: {(trigger, source): [dest, ...]} in file order"""
+def parse_dot(path, before=None):
+    """independent reading of pl/state.dot: {(trigger, source): [dest, ...]} in file order;
+    `before` (a dict) receives {(trigger, source): before-callback of the first such edge}"""
     txt = re.sub(r'/\*.*?\*/', '', open(path).read(), flags=re.S)
     table = {}
     for m in re.finditer(r'(\w+)\s*->\s*(\w+)\s*\[(.*?)\]', txt, flags=re.S):
         attrs = dict(re.findall(r'(\w+)\s*=\s*("(?:[^"\\]|\\.)*"|[^,\]\s]+)', m.group(3)))
         if 'trigger' in attrs:
-            table.setdefault((attrs['trigger'], attrs.get('source')), []).append(attrs.get('dest'))
+            key = (attrs['trigger'], attrs.get('source'))
+            if before is not None and key not in table:
+                before[key] = attrs.get('before')
+            table.setdefault(key, []).append(attrs.get('dest'))
     return table
 
 
@@ -121,7 +125,7 @@ class World:
         dawgie.pl.resources.last_runid = lambda: 0
         farm.plow = lambda: None
         farm.notify_all = lambda: None
-        farm.clear = lambda: None
+        farm.clear = lambda: self._on_farm_clear()
         schedule.next_job_batch = lambda: []
         schedule.promote = types.SimpleNamespace(more=lambda: False)
         dawgie.tools.submit.already_applied = lambda cs, repo: False
@@ -154,7 +158,8 @@ class World:
 
         state.pydot = types.SimpleNamespace(graph_from_dot_file=parse_once)
         pydot.Dot.write_svg = lambda self_, fn, **k: True
-        self.table = parse_dot(self.dot_path)
+        self.before = {}
+        self.table = parse_dot(self.dot_path, self.before)
         self.fsm = None
         self.fresh()
 
@@ -174,6 +179,11 @@ class World:
             return None
 
         def _reload(*a, **k):
+            # the body of the reload step is where context.git_rev changes (C11 relies on: never while active)
+            if fsm.is_pipeline_active() and not self.forced_mode:
+                self.violations.append((
+                    'C10:reload-while-active',
+                    f'_reload (git_rev changes) runs while is_pipeline_active() is true (state {fsm.state})'))
             return None
 
         fsm._pipeline, fsm._reload = _pipeline, _reload
@@ -186,6 +196,10 @@ class World:
         self.spawned.clear()
         self.ctx_ev = None
         self.booted = False
+        self.poisoned = False       # a probe was wrongly accepted: the object is off the documented machine
+        self.poison_event = None
+        self.forced_mode = False    # control state set by hand (unreachable states): reachability clauses off
+        self.need_load = False      # a reload step completed and FSM.load has not run since
         self.arch_origin = None
         self.last_seen_state = fsm.state
         real_set_state = fsm.machine.set_state
@@ -258,6 +272,10 @@ class World:
             'slots': (f.crew_thread is not None, f.doing_thread is not None, f.todo_thread is not None),
         }
 
+    def _on_farm_clear(self):
+        # FSM.load: farm.notify_all(); farm.clear() before deferring _pipeline
+        self.need_load = False
+
     cause_override = None
     trigger_hook = None   # C12: called with the call record just before a trigger runs
 
@@ -295,6 +313,12 @@ class World:
                     'C10:state-changed-outside-trigger',
                     f'state went {self.last_seen_state} -> {f.state} without a matching chain of transitions'))
         self.last_seen_state = f.state
+        if not forced and self.need_load and f.is_pipeline_active():
+            self.violations.append((
+                'C10:active-without-load',
+                'the pipeline is active again after a reload step completed (git_rev changed) although FSM.load '
+                '(farm.notify_all, farm.clear) has not run since'))
+            self.need_load = False
         if not forced and f.is_pipeline_active():
             if f.state != 'running' or f.transitioning.name != 'active' or self.life():
                 self.violations.append((
@@ -514,6 +538,50 @@ class World:
         self._guarded(self.fsm.update_trigger)
         return self._end('trigger')
 
+    # -------------------------------------------------------------- probes: a new transition during a transition
+    def phase_guarded(self, name):
+        """The documented machine refuses a new transition until the current one has finished entering /
+        exiting: every transition whose `before` callback opens a phase (start, save_prior_state, reset begin
+        with `transitioning = entering/exiting`, which is only allowed from `active`) is NOT allowed while
+        `transitioning` is not active.  Read off state.dot and the setter's contract, not off the Lean model."""
+        f = self.fsm
+        return f.transitioning.name != 'active' and bool(self.before.get((name, f.state)))
+
+    def ev_raw(self, name):
+        """fire a trigger from outside with no call-site guard"""
+        f = self.fsm
+        snap = self.snapshot()
+        src = f.state
+        must_reject = self.phase_guarded(name) or (name, src) not in self.table
+        why = 'a background step of the transition in progress is outstanding' if (name, src) in self.table \
+            else 'no such transition'
+        self._begin()
+        err = self._guarded(getattr(f, name))
+        o = self._end('trigger')
+        if must_reject and (err is None or self.snapshot() != snap):
+            after = self.snapshot()
+            self.violations.append((
+                'C10:accepted-during-transition' if (name, src) in self.table else 'C10:accepted-without-edge',
+                f'{name} in {src}/{snap["tr"]} with {list(snap["outstanding"])} outstanding ({why}) was '
+                + ('accepted' if err is None else f'rejected ({type(err).__name__}) with side effects')
+                + f': { {k: (snap[k], after[k]) for k in snap if snap[k] != after[k]} }'))
+            self.poisoned = True
+        return o
+
+    def probe_all(self):
+        """in a state that is in the middle of a transition, every trigger the documented machine does not
+        allow there must be rejected without side effects; returns True when one was not"""
+        f = self.fsm
+        if f.transitioning.name == 'active' or self.forced_mode:
+            return False
+        for name in sorted(n for n in f.machine.events if n.endswith('_trigger')):
+            if self.phase_guarded(name):
+                self.ev_raw(name)
+                if self.poisoned:
+                    self.poison_event = 'raw:' + name
+                    return True
+        return False
+
     def ev_reset(self, archive):
         self._begin()
         self._guarded(lambda: self.api.cmd_reset(['true' if archive else 'false']))
@@ -533,6 +601,8 @@ class World:
             raised = e
             rec.d.errback(self.Failure())
         else:
+            if rec.kind == 'reload':
+                self.need_load = True
             rec.d.callback(result)
         res = getattr(rec.d, 'result', None)
         if isinstance(res, self.Failure):
@@ -558,6 +628,8 @@ class World:
         self.farm.ARCHIVE = bool(archive)
         self.last_seen_state = state
         self.arch_origin = None
+        self.forced_mode = True
+        self.need_load = False
 
     def drain(self, order_rng=None, limit=12):
         """complete outstanding life-cycle steps until none is left; returns the number completed"""
